@@ -141,13 +141,16 @@ def run(ctx):
 
 
 # ---- random rule sets ------------------------------------------------------------------------
+NAMES = ["v0", "v1", "v2", "v3", "v4"]
+
+
 def gen_pattern(rng, depth, vars_, lits):
     """-> (pattern datum, instance generator info). Patterns inside the supported class."""
     k = rng.random()
     if depth <= 0 or k < 0.45:
         c = rng.random()
-        if c < 0.45:
-            v = "v%d" % len(vars_); vars_.append(v)
+        if c < 0.45 and len(vars_) <= len(NAMES):
+            v = NAMES[(vars_[0] + len(vars_) - 1) % len(NAMES)]; vars_.append(v)     # vars_[0] is the rule's numbering offset
             return S.vsym(v)
         if c < 0.55:
             return S.vsym("_")
@@ -212,6 +215,8 @@ def gen_template(rng, pv, depth):
     if depth <= 0 or k < 0.4:
         if pv["one"] and rng.random() < 0.6:
             return S.vsym(rng.choice(pv["one"]))
+        if pv.get("free") and rng.random() < 0.5:
+            return S.vsym(rng.choice(pv["free"]))      # a free identifier that another rule uses as a pattern variable
         return rng.choice([S.vsym("const"), S.vint(rng.randint(0, 5)), S.vbool(False)])
     items = []
     for _ in range(rng.randint(0, 4)):
@@ -247,13 +252,17 @@ def mutate_datum(rng, d):
 def gen_rule_set(rng):
     lits = ["lit", "else"][: rng.randint(1, 2)]
     rules = []
+    pats = []
     for _ in range(rng.randint(1, 6)):
-        vars_ = []
+        vars_ = [rng.randrange(len(NAMES))]
         n = rng.randint(0, 3)
         pat = [gen_pattern(rng, rng.randint(0, 3), vars_, lits) for _ in range(n)]
         if pat and rng.random() < 0.35 and pat[-1] != S.vsym("_") and "..." not in S.render_datum(pat[-1]):
             pat.append(S.vsym("..."))
+        pats.append(pat)
+    for pat in pats:
         pv = pattern_vars(S.vlist(pat))
+        pv["free"] = [x for x in NAMES if x not in pv["one"] and x not in pv["many"]]
         rules.append({"pat": pat, "tmpl": gen_template(rng, pv, rng.randint(0, 3))})
     uses = []
     for _ in range(rng.randint(4, 10)):
